@@ -78,6 +78,7 @@ class Client(kernel.Actor):
         self.transcript.append((self.sim.stamp(), text))
         self.sim.note("tx", "c%d" % self.idx)
         if self.slow and not self.sim.draining:
+            self.sim.faults["slow_consumer_send"] += 1
             fut = self.sim.loop.create_future()
             self.sim.job("wsend", "wsend:c%d" % self.idx, lambda: (not fut.done()) and fut.set_result(None))
             await fut
@@ -140,6 +141,8 @@ class Client(kernel.Actor):
             return
         self.disconnected = True
         self.t_disconnect = self.sim.stamp()
+        if not self.sim.draining:
+            self.sim.faults["peer_disconnect"] += 1
         if self.recv_fut is not None and not self.recv_fut.done():
             self.recv_fut.set_exception(falcon.WebSocketDisconnected())
 
